@@ -396,7 +396,17 @@ func ftm(vs []time.Duration) time.Duration {
 	return s[f] + (s[len(s)-1-f]-s[f])/2
 }
 
-var recRound = ev.New("c15/multipath-rounds", "rapid state machine over rounds of the real MeasureClockOffsetSCION on loopback: 1..5 real SCIONClients (interleaved mode on/off, counting filters), 0..8 offered paths per round (subset / superset / permutation of the previous round's, withdrawals) whose next hops are distinct harness sockets that answer as SCION time servers with per-path clock offsets >= 2 s apart; per-path faults: no answer, or an immediate refusal (reply with leap indicator 3, so that a failed measurement completes before the successful ones); crypto/rand scripted with rapid-drawn words. Oracle per round: no path => error and no request; otherwise the number of next hops that saw a request equals min(clients, paths) and no hop serves two clients; a client in interleaved mode whose previous path is still offered sends an interleaved-form request to exactly that path's next hop, a client whose previous path was withdrawn sends a basic request and its filter was reset; the returned offset is the fault-tolerant midpoint of the offsets of the paths that answered (450 ms tolerance; per-path offsets are >= 2 s apart) and an error is returned when none answered. One evaluation = one round. Non-trivial: round with >= 1 sticky client and >= 1 withdrawn path, or more clients than paths > 0; distinct by round-log hash")
+// fingerprints: the sorted path fingerprints of a list.
+func fingerprints(ps []snet.Path) []string {
+	var fs []string
+	for _, p := range ps {
+		fs = append(fs, fmt.Sprintf("%x", string(snet.Fingerprint(p)))[:12])
+	}
+	slices.Sort(fs)
+	return fs
+}
+
+var recRound = ev.New("c15/multipath-rounds", "rapid state machine over rounds of the real MeasureClockOffsetSCION on loopback: 1..5 real SCIONClients (interleaved mode on/off, counting filters), 0..8 offered paths per round (subset / superset / permutation of the previous round's, withdrawals) whose next hops are distinct harness sockets that answer as SCION time servers with per-path clock offsets >= 2 s apart; per-path faults: no answer, or an immediate refusal (reply with leap indicator 3, so that a failed measurement completes before the successful ones); crypto/rand scripted with rapid-drawn words. Oracle per round: the offered list holds the same paths after the call (callers offer it again); no path => error and no request; otherwise the number of next hops that saw a request equals min(clients, paths) and no hop serves two clients; a client in interleaved mode whose previous path is still offered sends an interleaved-form request to exactly that path's next hop, a client whose previous path was withdrawn sends a basic request and its filter was reset; the returned offset is the fault-tolerant midpoint of the offsets of the paths that answered (450 ms tolerance; per-path offsets are >= 2 s apart) and an error is returned when none answered. One evaluation = one round. Non-trivial: round with >= 1 sticky client and >= 1 withdrawn path, or more clients than paths > 0; distinct by round-log hash")
 
 func TestPropMultipathRounds(t *testing.T) {
 	vt.Check(t, 300, 1500, func(t *rapid.T) {
@@ -518,10 +528,16 @@ func TestPropMultipathRounds(t *testing.T) {
 			ctx, cancel := context.WithTimeout(context.Background(), dl)
 			var off time.Duration
 			var err error
+			fpsBefore := fingerprints(ps)
 			withReader(&wordReader{words: words}, func() {
 				_, off, err = client.MeasureClockOffsetSCION(ctx, cs[0].Log, cs, local, remote, ps)
 			})
 			cancel()
+			// the caller's list: callers offer the same slice again in the next round (benchmark/client_scion.go fetches
+			// its list once for 10 000 rounds), so it has to come back holding the same paths, in whatever order
+			if fpsAfter := fingerprints(ps); !slices.Equal(fpsBefore, fpsAfter) {
+				t.Fatalf("round %d: the path list the caller offered holds other paths after the call: before %v, after %v (history %v)", round, fpsBefore, fpsAfter, log)
+			}
 			time.Sleep(3 * time.Millisecond)
 			// what the hops saw
 			used := map[int][]*exRec{}
